@@ -20,6 +20,11 @@ CHECKS = {
          "TLC-simulated behaviours of larger universes are replayed op by op into real Streams (model rows = real rows) and through the whole-sequence entry points; "
          "every byte string is judged by TLC (TraceReader) and parsed back with pyjelly. Exhaustive per slice, sampled beyond; string-level variety only through three substitution classes.",
          "TLA+ model checking (TLC) of PyWriter o JellyReader + replay of TLC behaviours into real Streams + TLC trace judging of the bytes"),
+ "C02": ("model_checking", "6 C02",
+         "RDF 1.1 behaviours of PyWriter (TLC simulation) are built as rdflib Graph/Dataset (default, IRI and bnode graph names; plain, language-tagged and typed objects incl. xsd:string and non-canonical lexical forms) and written through Graph.serialize with TripleStream / QuadStream / GraphStream, "
+         "flat and grouped logical types, delimited and non-delimited flat, and through the stream functions; the bytes are judged by TLC as a SET against what rdflib reports as the input, and parsed back through Graph.parse / Dataset.parse, parse_jelly_to_graph and parse_jelly_flat. "
+         "The composition PyWriter o JellyReader is closed exhaustively on the TRIPLES/QUADS/GRAPHS slices.",
+         "TLC simulation + model checking of PyWriter, replay through the rdflib entry points, TLC trace judging with set semantics"),
  "C03": ("model_checking", "6 C03",
          "The independent decoder IS the Tier-1 TLA+ reader: every stream the real serializer writes (model-generated inputs, all generic entry points) is decoded by /verif's own codec and validated row by row by TLC, including denotation = input.",
          "TLC trace validation of real serializer output against spec/JellyReader.tla; TLC model checking of PyWriter => reader never errs"),
